@@ -166,3 +166,24 @@ def write_evidence(ctx: Ctx, known_hit: list[Ob], violations: list[Ob], wall: fl
         fh.write("\n")
     os.replace(tmp, path)
     return path
+
+
+def run_module(mod, ctx) -> None:
+    """Run a property module.  If the property-specific part aborts because an anchor vanished or a shape is no
+    longer recognised, the generic sweeps are still run and whatever obligations had been decided are kept: a
+    violation found before (or besides) the abort is a violation, not an analysis error.  The abort reason is kept
+    in ctx.aborted; with no violation recorded it makes the run end in ANALYSIS-ERROR (exit 2)."""
+    from .index import AnalysisError
+
+    ctx.aborted = None
+    try:
+        mod.run(ctx)
+    except AnalysisError as e:
+        ctx.aborted = str(e)
+        if not getattr(ctx, "sweeps_done", False):
+            from checks.common import generic_sweeps
+
+            try:
+                generic_sweeps(ctx)
+            except AnalysisError:
+                pass
